@@ -43,6 +43,9 @@ func genNoResponse(g *gen, repo string) {
 	fmt.Fprintf(&b, "/-- message/noresponse/noresponse.go: IsNoResponseCode switches on `code >> classShift` (read from the AST) -/\ndef classShift : Nat := %d\n", shift)
 	fmt.Fprintf(&b, "/-- the `case <class>: classBit = <bit>` arms of that switch, in source order (read from the AST) -/\ndef classBits : List (Nat × Nat) := %s\n",
 		natList(bits, func(p [2]uint64) string { return fmt.Sprintf("(%d, %d)", p[0], p[1]) }))
+	eager, whole := noResponseWriterShape(repo)
+	fmt.Fprintf(&b, "/-- net/responsewriter: New takes a snapshot of the request's No-Response value; SetResponse never looks at the request's options -/\ndef readAtConstruction : Bool := %v\n", eager)
+	fmt.Fprintf(&b, "/-- net/responsewriter: the value is looked up with Options.GetUint32 over the whole list (no index expression) -/\ndef lookupOverWholeList : Bool := %v\n", whole)
 	b.WriteString("\nend CoapVerif.Generated.NoResponse\n")
 	g.write("NoResponse.lean", b.String())
 }
